@@ -152,11 +152,7 @@ impl Number {
             if exp < 0 && (self.value == Numeric::zero() || self.value == Numeric::Float(0.0)) {
                 return Err("Division by zero".to_string());
             }
-            if self
-                .unit
-                .iter()
-                .any(|(_, &power)| power.checked_mul(exp as i64).is_none())
-            {
+            if self.unit.clone().checked_pow(exp as i64).is_none() {
                 return Err("Unit exponent is too large".to_string());
             }
             Ok(self.powi(exp))
@@ -536,9 +532,10 @@ impl<'a, 'b> Mul<&'b Number> for &'a Number {
     type Output = Option<Number>;
 
     fn mul(self, other: &Number) -> Self::Output {
+        // None when a unit's power doesn't fit.
         Some(Number {
             value: &self.value * &other.value,
-            unit: &self.unit * &other.unit,
+            unit: self.unit.checked_mul(&other.unit)?,
         })
     }
 }
